@@ -48,7 +48,7 @@ type cop struct {
 
 const (
 	maxBuf       = 1 << 16
-	maxDrainIter = 1 << 16
+	maxDrainIter = 1 << 14
 )
 
 // ---------------------------------------------------------------- parsing
